@@ -43,7 +43,7 @@ BODY = {
 # names legal in DSDL (probed against pydsdl 1.25); several are reserved / patterned in some target language
 NAME_POOL = ["a", "b", "x", "if", "_if", "if_", "str", "str_", "for", "class", "None", "_Foo", "_foo", "__a", "_a", "Foo", "x_t", "def",
              "is", "union", "import", "print", "list", "zX0041", "A1", "NULL", "double", "register", "pass", "in", "as", "del", "_",
-             "T", "U", "if_1_0", "T_1_0"]
+             "T", "U", "if_1_0", "T_1_0", "tostr", "isx", "EAB", "atomic_x", "memb", "SIGX", "E1", "uint_t"]
 VERSIONS = [(1, 0), (1, 1), (0, 1), (2, 3), (1, 10), (10, 12), (255, 255)]
 
 
@@ -241,7 +241,7 @@ def do_run(base, job, jdir, dsdl_root, by_key, run):
     import nunavut
     import pydsdl
     from nunavut.jinja import DSDLCodeGenerator, SupportGenerator
-    from nunavut._utilities import YesNoDefault
+    from nunavut import YesNoDefault
 
     lang = run["lang"]
     sand = jdir / ("s%s" % run["rid"])
@@ -299,10 +299,21 @@ def do_run(base, job, jdir, dsdl_root, by_key, run):
                 queue.extend(list(n.get_nested_namespaces()))
             unknown = len(nodes) + 1
 
+            st = {to_s(e["n"]): to_s(e["s"]) for e in strop}
+            by_stropped = {}
+            for t in types:
+                for k in range(1, len(t["ns"]) + 1):
+                    by_stropped.setdefault(".".join(st[c] for c in t["ns"][:k]), set()).add(tuple(t["ns"][:k]))
+
             def dsdl_of(n):
+                """the DSDL identity of a namespace object: its source folder below the root namespace directory (public duck-typed
+                property); if that is not available, its (stropped) full name where that is unambiguous"""
                 try:
                     rel = pathlib.Path(n.source_file_path).relative_to(rroot)
                     return [job["root"]] + list(rel.parts)
+                except AttributeError:
+                    cands = by_stropped.get(str(getattr(n, "full_namespace", "")), set())
+                    return list(next(iter(cands))) if len(cands) == 1 else ["?"]
                 except Exception:
                     return ["?"]
 
@@ -798,9 +809,11 @@ def run(ctx):
                 "observed": res[mid["runs"][0]["rid"]]["obs"], "predicted": pred[mid["runs"][0]["rid"]][0]})
     # self-test of the comparison with the prediction: perturb one expected outcome
     r0 = jobs[0]["runs"][0]
-    bad = json.loads(json.dumps(pred[r0["rid"]][0]))
+    same = json.loads(json.dumps(pred[r0["rid"]][0]))
+    bad = json.loads(json.dumps(same))
     bad["nodes"][0][3] = bad["nodes"][0][3] + [99]
-    ctx.selftest("perturbed predicted tree is reported as different from the observed one", differs(bad, res[r0["rid"]]["obs"], False) == "nodes")
+    ctx.selftest("a perturbed predicted tree is reported as different by the comparison with the I-layer prediction",
+                 differs(bad, same, False) == "nodes" and differs(same, same, True) is None)
 
     # ---- 3. code -> spec: larger random inputs, all languages, overrides, spellings, API and CLI, several hash seeds
     njobs = ctx.pick(600, 6000)
